@@ -53,7 +53,7 @@ def run(chk, ctx):
                 r = set(canon(P.resolve(cc, P.sl(cc).ret(rb))) for rb in P.cfg(cc).return_blocks())
                 chk.require(all(x.startswith("IterationError::Runtime{0: ") for x in r) and bool(r), "TAB", "TAB:extract:virtual-error-is-runtime-error", "map_err(|e| IterationError::Runtime(..e..))", "evaluation error mapped to %s" % r)
     # declaration expression: every identifier is an output read
-    c11.scoping_rules(chk, P)
+    c11.scoping_rules(chk, P, only=("declare",))
     # expected value from the column of that name or X: C06's table (Virtual treated like Output)
     bi = P.body("parsed_test_case::ParsedTestCase::build_indices")
     if bi is not None:
